@@ -9,6 +9,7 @@ KNOWN = {
     'invalid:id-not-string': 'C04-similar-insert-id-dict',
     'invalid:retype-key': 'C04-retype-key',
     'invalid:id-missing': 'C04-upgrade-id-missing',
+    'invalid:cleared-output': 'C04-cleared-output',
 }
 
 
